@@ -86,6 +86,16 @@ def _run_one(binary, path):
         raise Infra('%s failed on %s: rc=%d %s' % (binary, path, p.returncode, p.stderr[-2000:]))
     return p.stdout
 
+def _big_stack():
+    # the extracted model recurses over lists of up to 262144 bytes (non-tail-recursive list functions)
+    import resource
+    soft, hard = resource.getrlimit(resource.RLIMIT_STACK)
+    want = 4 << 30
+    try:
+        resource.setrlimit(resource.RLIMIT_STACK, (want if hard == resource.RLIM_INFINITY else min(want, hard), hard))
+    except (ValueError, OSError):
+        pass
+
 def run_cases(binary, lines, tag):
     """Run `binary` over the case lines, sharded; returns {id: {key: value-string}}."""
     os.makedirs(WORK, exist_ok=True)
@@ -101,7 +111,7 @@ def run_cases(binary, lines, tag):
             with open(path, 'w') as f:
                 f.write('\n'.join(sh_lines) + '\n')
             procs.append((path, subprocess.Popen([binary, path], stdout=open(path + '.out', 'w'),
-                                                 stderr=subprocess.PIPE, text=True)))
+                                                 stderr=subprocess.PIPE, text=True, preexec_fn=_big_stack)))
         res = {}
         for path, p in procs:
             _, errtxt = p.communicate()
